@@ -130,18 +130,37 @@ func vfFrameCheck(ph PhasedSequence, input []uint8, reverse bool, translate bool
 	}
 }
 
-// H_C16_frame_nt: nucleotide mode, tiny symbolic sequence against the ORF ATGAAA.
-// bounds: reference ORF ATGAAA (6 nt), input length 6..7 over {A,C,G,T} symbolic, reverse on/off, cut-end on/off, 1 worker
+// vfMutatedORF embeds a copy of the ORF ATGAAA with one symbolic substitution between 0..1 symbolic flank bases.
+func vfMutatedORF() []uint8 {
+	lf := nondetRange(0, 1)
+	rf := nondetRange(0, 1)
+	k := nondetRange(0, 5)
+	var in []uint8
+	base := func() uint8 {
+		c := nondetByte()
+		assume(vfIsACGT(c))
+		return c
+	}
+	for j := 0; j < lf; j++ {
+		in = append(in, base())
+	}
+	orf := []uint8("ATGAAA")
+	orf[k] = base()
+	in = append(in, orf...)
+	for j := 0; j < rf; j++ {
+		in = append(in, base())
+	}
+	return in
+}
+
+// H_C16_frame_nt: nucleotide mode, mutated copy of the ORF ATGAAA in symbolic flanks.
+// bounds: reference ORF ATGAAA (6 nt); input = 0..1 symbolic flank base + the ORF with one symbolic substitution at any position + 0..1 symbolic flank base, bases over {A,C,G,T}; reverse on/off, cut-end on/off, 1 worker
 // outside: longer inputs, IUPAC codes, other scoring schemes
 func H_C16_frame_nt() {
-	L := nondetRange(6, 7)
 	reverse := nondetRange(0, 1) == 1
 	cutend := nondetRange(0, 1) == 1
-	in := make([]uint8, L)
-	for k := range in {
-		in[k] = nondetByte()
-		assume(vfIsACGT(in[k]))
-	}
+	in := vfMutatedORF()
+	L := len(in)
 	seqs := NewSeqBag(NUCLEOTIDS)
 	cp := make([]uint8, L)
 	copy(cp, in)
@@ -169,17 +188,13 @@ func H_C16_frame_nt() {
 	}
 }
 
-// H_C16_frame_aa: translated mode, tiny symbolic sequence against the ORF ATGAAA.
-// bounds: reference ORF ATGAAA, input length 6..7 over {A,C,G,T} symbolic, reverse off, cut-end on/off, 1 worker
+// H_C16_frame_aa: translated mode, mutated copy of the ORF ATGAAA in symbolic flanks.
+// bounds: reference ORF ATGAAA; input as in H_C16_frame_nt; reverse off, cut-end on/off, 1 worker
 // outside: reverse strand in translated mode (thorough twin), longer inputs
 func H_C16_frame_aa() {
-	L := nondetRange(6, 7)
 	cutend := nondetRange(0, 1) == 1
-	in := make([]uint8, L)
-	for k := range in {
-		in[k] = nondetByte()
-		assume(vfIsACGT(in[k]))
-	}
+	in := vfMutatedORF()
+	L := len(in)
 	seqs := NewSeqBag(NUCLEOTIDS)
 	cp := make([]uint8, L)
 	copy(cp, in)
